@@ -66,7 +66,9 @@ SharedDetection(doc, c) ==
         rs == IF p.ok THEN RefSeq(p.ast, [k \in 1..Len(doc.dets) |-> doc.dets[k].name]) ELSE <<>>
     IN  \E i, j \in 1..Len(rs) : i # j /\ rs[i] = rs[j]
 
-Unsupported(K, e) == K.cs = "none" /\ HasKind(e, {"cased"})
+\* no backend of the family can say this: a case-sensitive value without case-sensitive templates, or
+\* without a field (there is no template for case-sensitive keywords at all)
+Unsupported(K, e) == \E a \in QAtoms(e) : a.k = "cased" /\ (K.cs = "none" \/ a.f = <<>>)
 
 QueryClause(K, want, text, shared) ==
     LET got == ParseQuery(text, K.prec) IN
